@@ -171,13 +171,17 @@ def run_property(spec, tier, seed):
     new_oracle = []
     for (st, c, il, ml, why) in oracle_fail:
         k = classify(st, c)
+        if k and not st.reference and ml is not None and il != ml:
+            k = None      # inside a recorded class, but not the recorded behaviour (the faithful model answers differently)
         if k:
             reported_known.add(k["id"])
         else:
             new_oracle.append((st, c, il, ml, why))
     new_dis = []
     for (st, c, il, ml) in disagreements:
-        k = classify(st, c)
+        # a faithful model already behaves in the recorded defective way, so a difference between it and the
+        # code is never excused by a finding; only answers that differ from a *reference* (RefDB) can be
+        k = classify(st, c) if st.reference else None
         if k:
             reported_known.add(k["id"])
         else:
